@@ -608,6 +608,9 @@ def enumerate_plan(tier, stats):
         fams.append(("df-full-s3", df_driver(DFConfig(size=3, depth=1, kinds=nowb)), 0))
         fams.append(("df-reduced-s4", df_driver(DFConfig(size=4, depth=1, alphabet="reduced", kinds=["if", "for", "while"])), 0))
         fams.append(("df-mini-s5", df_driver(DFConfig(size=5, depth=1, alphabet="mini", kinds=["if", "for"], top_items=2)), 0))
+        # nesting 2 (an if inside a loop, a loop inside an if) with the reduced alphabet: a seeded liveness defect
+        # needed an if inside a while body together with a non-default return list
+        fams.append(("df-mini-s4-d2-periph1", df_driver(DFConfig(size=4, depth=2, alphabet="mini", kinds=["if", "for", "while"])), 1))
         fams.append(("op-b1", op_driver(), 1))
     else:
         fams.append(("df-full-s2-periph1", df_driver(DFConfig(size=2, depth=1)), 1))
